@@ -28,6 +28,29 @@ type Case struct {
 	// Decoys: extra keys of the map named like constants and static functions; they
 	// must never be read through an implicit identifier.
 	Decoys bool `json:"decoys"`
+	// LateConst: this attribute name is registered as a constant AFTER the generator has
+	// already generated a function with the same map name; constants shadow attributes
+	LateConst string `json:"late_constant,omitempty"`
+}
+
+const lateValue = 4711
+
+// declares reports whether the program binds the name somewhere (let, func, parameter).
+func declares(e *lang.Expr, name string) bool {
+	found := false
+	e.Walk(func(x *lang.Expr) {
+		if (x.K == lang.KLet || x.K == lang.KFunc) && x.S == name {
+			found = true
+		}
+		if x.K == lang.KLam || x.K == lang.KFunc {
+			for _, n := range x.Names {
+				if n == name {
+					found = true
+				}
+			}
+		}
+	})
+	return found
 }
 
 func config() lang.Config {
@@ -56,19 +79,40 @@ func buildMap(c Case) value.Map {
 
 func check(c Case) (skip, msg string) {
 	in := progs.NewRef()
-	want := progs.RefRun(in, c.Case)
+	refCase := c.Case
+	if c.LateConst != "" {
+		// for the reference the name simply denotes the constant
+		refCase.Args = append([]*lang.Expr{}, c.Args...)
+		for i, n := range c.Prog.ArgNames {
+			if n == c.LateConst {
+				refCase.Args[i] = lang.Int(lateValue)
+			}
+		}
+	}
+	want := progs.RefRun(in, refCase)
 	if why := progs.OutOfDomain(in, want); why != "" {
 		return why, ""
 	}
 	attrs := map[string]bool{}
 	for _, n := range c.Prog.ArgNames {
-		attrs[n] = true
+		if n != c.LateConst {
+			attrs[n] = true
+		}
 	}
 	explicitText := lang.Render(lang.RewriteAttrs(c.Prog.Body, mapName, attrs))
 	for _, g := range []struct {
 		name string
 		g    *value.FunctionGenerator
 	}{{"optimizer on", impl}, {"optimizer off", implOff}} {
+		if c.LateConst != "" {
+			// a generator of its own: a first function with this map name, then the constant
+			g.g = progs.NewImpl(g.name == "optimizer on")
+			if _, _, err := g.g.GenerateWithMap("0", mapName); err != nil {
+				return "", "GenerateWithMap rejected \"0\": " + err.Error()
+			}
+			g.g.AddConstant(c.LateConst, value.Int(lateValue))
+			g.name += ", constant " + c.LateConst + " registered after a first GenerateWithMap"
+		}
 		fi, _, err := g.g.GenerateWithMap(c.Text, mapName)
 		if err != nil {
 			return "", fmt.Sprintf("%s: GenerateWithMap rejected %q: %v", g.name, c.Text, err)
@@ -103,6 +147,14 @@ func TestPropC16(t *testing.T) {
 		c := Case{Case: progs.Case{Prog: p, Args: progs.GenArgs(t, p.ArgTypes)}, Rep: rapid.IntRange(0, 3).Draw(t, "rep"),
 			Decoys: rapid.Bool().Draw(t, "decoys")}
 		c.Text = lang.Render(p.Body)
+		if rapid.IntRange(0, 4).Draw(t, "lateConst") == 0 {
+			for i, n := range p.ArgNames {
+				if p.ArgTypes[i] == lang.TInt && !declares(p.Body, n) && p.Body.Mentions(n) {
+					c.LateConst = n
+					break
+				}
+			}
+		}
 		skip, msg := check(c)
 		if skip != "" {
 			evid.R.Skip()
@@ -120,6 +172,9 @@ func TestPropC16(t *testing.T) {
 		classes := []string{fmt.Sprintf("map_rep_%d", c.Rep)}
 		if nt {
 			classes = append(classes, "attribute_read_inside_closure_or_func")
+		}
+		if c.LateConst != "" {
+			classes = append(classes, "constant_registered_after_first_GenerateWithMap")
 		}
 		if p.ArgNames[0] != "x" {
 			classes = append(classes, "attribute_names_collide_with_locals")
